@@ -465,6 +465,14 @@ package model
 //@             (*result)[k].Props != nil && !(*result)[k].Props.Disabled && (*result)[k].Bias != nil
 //@             && (*result)[k].Props.Name in *available && *(*result)[k].Bias == (*available)[(*result)[k].Props.Name]
 //@   ensures [at_most_requested] len(*result) <= len(*choose)
+//@   ensures [every_enabled_entry_kept_whatever_its_probability] forall j int :: 0 <= j && j < len(*choose) && !(decoded_has((*choose)[j], "Disabled") && decoded_bool((*choose)[j], "Disabled")) ==>
+//@             exists k int :: 0 <= k && k < len(*result)
+//@             && (*result)[k].Props.Name == (decoded_has((*choose)[j], "Name") ? decoded_str((*choose)[j], "Name") : "")
+//@             && (*result)[k].Props.ApplyProbability == (decoded_has((*choose)[j], "ApplyProbability") ? decoded_real((*choose)[j], "ApplyProbability") : 1.0)
+//@   loop 1 invariant [every_enabled_entry_kept_whatever_its_probability] forall j int :: 0 <= j && j < iter && !(decoded_has((*choose)[j], "Disabled") && decoded_bool((*choose)[j], "Disabled")) ==>
+//@             exists k int :: 0 <= k && k < len(result)
+//@             && result[k].Props.Name == (decoded_has((*choose)[j], "Name") ? decoded_str((*choose)[j], "Name") : "")
+//@             && result[k].Props.ApplyProbability == (decoded_has((*choose)[j], "ApplyProbability") ? decoded_real((*choose)[j], "ApplyProbability") : 1.0)
 //@   ensures [probability_as_requested_default_one] forall k int :: 0 <= k && k < len(*result) ==> exists j int :: 0 <= j && j < len(*choose)
 //@             && (*result)[k].Props.ApplyProbability == (decoded_has((*choose)[j], "ApplyProbability") ? decoded_real((*choose)[j], "ApplyProbability") : 1.0)
 //@             && (*result)[k].Props.Name == (decoded_has((*choose)[j], "Name") ? decoded_str((*choose)[j], "Name") : "")
